@@ -18,7 +18,7 @@ for mp in sorted(glob.glob(os.path.join(VERIF, "seeded", "*", "meta.json"))):
                     what = line
                     break
     what = re.sub(r"\s+", " ", what)[:110]
-    rows.append((name, m["breaks_property"], ", ".join(m.get("checks_fired", [])) or "—", ", ".join(m.get("checks_undecided", [])) or "—", ", ".join(m.get("rules_reporting", []))[:70], HIST.get(name, "caught by the checks as they stood"), what))
+    rows.append((name, m["breaks_property"], ", ".join(m.get("checks_fired", [])) or "—", ", ".join(m.get("checks_undecided") or m.get("checks_analysis_error") or []) or "—", ", ".join(m.get("rules_reporting", []))[:70], HIST.get(name, "caught by the checks as they stood"), what))
 print("| change | property | checks reporting a violation | checks answering 'cannot speak' | reporting rules | history | what it does |")
 print("|---|---|---|---|---|---|---|")
 for r in rows:
